@@ -1322,6 +1322,13 @@ pub fn gen(prop: &str, rng: &mut Rng, quick: bool, st: &mut Stats) -> Option<Vec
                 c.push("chk_valid_sparse sync 4f5880 27".to_string());
                 st.bump("archives_with_doubled_leaf_size");
             }
+            // few tiles, widely spaced ids: a root directory that exceeds its budget with fewer than 2048 entries
+            if prop == "C02" {
+                for (k, (n, g)) in [(1900u64, 0x27u64), (2048, 0x30), (1500, 0x33), (1700, 0x32)].iter().enumerate() {
+                    c.push(format!("chk_valid_sparse {} {n:x} {g:x}", if k % 2 == 0 { "sync" } else { "async" }));
+                    st.bump("few_sparse_tiles_with_a_large_root");
+                }
+            }
             // tile counts that put an uncompressed root directory just below, inside and above (16257, 16384]
             for (i, n) in [4060usize, 4063, 4064, 4065, 4080, 4095, 4096, 4097].iter().enumerate() {
                 let (w, r) = fam(i);
@@ -1813,6 +1820,11 @@ pub fn gen(prop: &str, rng: &mut Rng, quick: bool, st: &mut Stats) -> Option<Vec
                 if n <= 12000 {
                     c.push(format!("wdirs sync none 3 0 - {}", entries_tok(&es)));
                 }
+            }
+            // whole archives with few but widely spaced tiles: the root exceeds its budget with fewer than 2048 entries
+            for (k, (n, g)) in [(1900u64, 0x27u64), (2048, 0x30), (1500, 0x33), (1700, 0x32)].iter().enumerate() {
+                c.push(format!("chk_valid_sparse {} {n:x} {g:x}", if k % 2 == 0 { "sync" } else { "async" }));
+                st.bump("few_sparse_tiles_with_a_large_root");
             }
             // whole archives that spill
             for (i, comp) in [Compression::None, Compression::GZip].iter().enumerate() {
